@@ -180,6 +180,43 @@ def run(ctx):
                f'column, in any letter case', file=PJ, line=gt.lineno)
     got = interp_for(base_stubs()).call_function(gt, [Obj('PlanJoinTablesQuery', tables_idx=idx), const(1)], {}, Env())
     ctx.ob('C14.attribution', 'constant', got is None, 'a constant belongs to no table', file=PJ, line=gt.lineno)
+    # ---- the scope the join planner builds: get_join_sequence + resolve_table interpreted on join members, then get_table_for_column -------------------
+    gjs = fn.get('get_join_sequence')
+    ctx.need(gjs is not None, 'PlanJoinTablesQuery.get_join_sequence not found')
+    for order in ('model first', 'model last'):
+        m = Obj('Identifier', parts=['mindsdb', 'sales'], alias=None)                                          # an un-aliased model
+        t = Obj('Identifier', parts=['int1', 'sales'], alias=Obj('Identifier', parts=['s'], alias=None))      # a table with the same name, aliased
+        u = Obj('Identifier', parts=['int2', 'Orders'], alias=None)
+        members = [m, t, u] if order == 'model first' else [t, u, m]
+        j = Obj('Join', left=Obj('Join', left=members[0], right=members[1], condition=None, join_type='join', implicit=False, alias=None),
+                right=members[2], condition=None, join_type='join', implicit=False, alias=None)
+        planner = Obj('QueryPlanner', default_namespace='mindsdb', databases=['int1', 'int2', 'mindsdb'])
+        self_ = Obj('PlanJoinTablesQuery', planner=planner, tables_idx={}, tables=[])
+        stubs = base_stubs()
+        stubs['self.planner.get_predictor'] = lambda it, n: ({'name': 'sales'} if n.parts[0].lower() == 'mindsdb' else None)
+        stubs['copy.deepcopy'] = lambda it, x: x.clone() if isinstance(x, Obj) else x
+        it = interp_for(stubs)
+        it.isa.update({'Join': set(), 'Identifier': set()})
+        try:
+            it.call_function(gjs, [self_, j], {}, Env())
+        except Raised as r:
+            ctx.ob('C14.attribution', f'scope:{order}', False, f'get_join_sequence raises {r.exc_name} on model JOIN aliased table JOIN table', file=PJ, line=gjs.lineno)
+            continue
+        infos = {'model mindsdb.sales': None, 'table int1.sales AS s': None, 'table int2.Orders': None}
+        for ti in self_.tables:
+            key = 'model mindsdb.sales' if ti.attrs.get('predictor_info') else ('table int1.sales AS s' if ti.table.alias is not None else 'table int2.Orders')
+            infos[key] = ti
+        for col, want in (('sales.horizon', 'model mindsdb.sales'), ('SALES.horizon', 'model mindsdb.sales'), ('mindsdb.sales.horizon', 'model mindsdb.sales'),
+                          ('s.x', 'table int1.sales AS s'), ('S.x', 'table int1.sales AS s'), ('orders.y', 'table int2.Orders'), ('int2.orders.y', 'table int2.Orders'),
+                          ('x', None), ('zz.x', None)):
+            got = interp_for(base_stubs()).call_function(gt, [self_, Obj('Identifier', parts=col.split('.'), alias=None)], {}, Env())
+            gname = next((k for k, v in infos.items() if v is got and got is not None), None if got is None else repr(got)[:40])
+            rows += 1
+            ctx.ob('C14.attribution', f'scope:{order}:{col}', gname == want,
+                   f'in `mindsdb.sales JOIN int1.sales AS s JOIN int2.Orders` ({order}) the column {col} is attributed to {gname}, expected {want}: an aliased table is '
+                   f'known by its alias, an un-aliased one by the suffixes of its name; a member never takes over the qualifier of another member (a condition on the '
+                   f'model would be pushed into the table fetch and the model would lose its argument)', file=PJ, line=gjs.lineno,
+                   witness='select * from mindsdb.sales join int1.sales s on ... where sales.horizon = 7')
     # ---- conjunct-only / registered comparison: C08's tables ---------------------------------------------------------------------------------------
     from . import C08
     sub = core.Ctx('C08', ctx.src, ctx.tier)
